@@ -213,7 +213,7 @@ Proof.
   all: repeat match goal with HP : phase_frame _ _ _ |- _ => progress cbn [phase_frame] in HP end.
   all: try (match goal with E : (compl _ =? 0) = true |- _ => apply Z.eqb_eq in E end).
   all: try (match goal with E : (g_out (gate_at _ _) =? 0) = true |- _ => apply Z.eqb_eq in E end).
-  all: try (match goal with E : (pout _ =? 0) = true |- _ => apply Z.eqb_eq in E end).
+  all: try (match goal with E : (pout _ - gx _ =? 0) = true |- _ => apply Z.eqb_eq in E end).
   (* destruction of the pipes: all queues are empty, so no event is logged *)
   all: try (match goal with |- context [destroy_pipes ?t ?s0] =>
               assert (QE' : Forall (fun g => g_q g = []) (gates s0)) by (cbn [gates w_result w_exc]; apply QE; assumption);
